@@ -32,5 +32,11 @@ Inductive sexpr :=
 
 Inductive ckind := KOracleSet | KBatch | KCall.
 
+(* what a signature helper does to byte 64 (the recovery id V) before go-ethereum's recovery *)
+Inductive vnorm :=
+| VSubIf (vals : list Z) (d : Z)    (* if sig[64] == v1 || sig[64] == v2 ... { sig[64] -= d } *)
+| VMod (m : Z)                      (* sig[64] %= m *)
+| VNone.
+
 Definition garg := (gexpr * abity)%type.
 Definition sarg := (sexpr * abity)%type.
